@@ -1006,6 +1006,7 @@ func constructed(c *engine.Ctx) {
 		}
 	}
 	constructorsInLocalZone(c)
+	changedAfterDecode(c)
 	// NewKRBError / KRBError built by hand
 	evals++
 	ke := messages.NewKRBError(types.PrincipalName{NameType: 2, NameString: []string{"krbtgt", "R"}}, "R", 25, "preauth required")
@@ -1058,6 +1059,109 @@ func constructed(c *engine.Ctx) {
 	_ = asn1.BitString{}
 }
 
+// changedAfterDecode: a decoded message is a value like any other - after its ticket has been replaced or edited,
+// encoding it yields the new content (decode, change, encode, decode), for the messages that carry a ticket.
+func changedAfterDecode(c *engine.Ctx) {
+	var other messages.Ticket
+	if err := other.Unmarshal(ticketN(1)); err != nil {
+		engine.FailValid("ticket construction", err)
+	}
+	type tc struct {
+		name   string
+		change func(t *messages.Ticket)
+		want   func() []byte
+	}
+	edited := func(f func(t *krbmsg.Ticket)) func() []byte {
+		return func() []byte {
+			t := baseTicket()
+			t.Realm = "REALM0.EXAMPLE"
+			t.Enc.Cipher = bytes.Repeat([]byte{1}, 20)
+			t.Enc.KVNO = krbmsg.I64(3)
+			f(&t)
+			return t.Encode()
+		}
+	}
+	if !bytes.Equal(edited(func(t *krbmsg.Ticket) {})(), ticketN(0)) {
+		engine.Fatal("changedAfterDecode: the edited-ticket model is out of step with ticketN(0)")
+	}
+	cases := []tc{
+		{"ticket-replaced", func(t *messages.Ticket) { *t = other }, func() []byte { return ticketN(1) }},
+		{"ticket-realm-edited", func(t *messages.Ticket) { t.Realm = "EDITED.EXAMPLE" }, edited(func(t *krbmsg.Ticket) { t.Realm = "EDITED.EXAMPLE" })},
+		{"ticket-kvno-edited", func(t *messages.Ticket) { t.EncPart.KVNO = 77 }, edited(func(t *krbmsg.Ticket) { t.Enc.KVNO = krbmsg.I64(77) })},
+		{"ticket-sname-edited", func(t *messages.Ticket) { t.SName.NameString = []string{"svc"} }, edited(func(t *krbmsg.Ticket) { t.SName.Names = []string{"svc"} })},
+	}
+	for _, cs := range cases {
+		for _, msg := range []string{"AP-REQ", "AS-REP", "TGS-REP"} {
+			evals++
+			rec := map[string]interface{}{"message": msg, "change": cs.name}
+			var b2 []byte
+			var err error
+			var got []byte
+			switch msg {
+			case "AP-REQ":
+				orig := krbmsg.APReq{PVNO: 5, MsgType: 14, Ticket: ticketN(0), Auth: baseEncData()}.Encode()
+				var a messages.APReq
+				if err = a.Unmarshal(orig); err != nil {
+					engine.FailValid("AP-REQ decode", err)
+				}
+				cs.change(&a.Ticket)
+				if b2, err = a.Marshal(); err == nil {
+					var r krbmsg.APReq
+					if r, err = krbmsg.DecodeAPReq(b2); err == nil {
+						got = r.Ticket
+					}
+				}
+			default:
+				app, mt := krbmsg.AppASRep, int64(11)
+				if msg == "TGS-REP" {
+					app, mt = krbmsg.AppTGSRep, 13
+				}
+				orig := krbmsg.KDCRep{App: app, PVNO: 5, MsgType: mt, CRealm: "R.COM", CName: krbmsg.PrincipalName{Type: 1, Names: []string{"user1"}}, Ticket: ticketN(0), Enc: baseEncData()}.Encode()
+				var f *messages.KDCRepFields
+				var as messages.ASRep
+				var tgs messages.TGSRep
+				if msg == "AS-REP" {
+					err, f = as.Unmarshal(orig), &as.KDCRepFields
+				} else {
+					err, f = tgs.Unmarshal(orig), &tgs.KDCRepFields
+				}
+				if err != nil {
+					engine.FailValid(msg+" decode", err)
+				}
+				cs.change(&f.Ticket)
+				if msg == "AS-REP" {
+					b2, err = as.Marshal()
+				} else {
+					b2, err = tgs.Marshal()
+				}
+				if err == nil {
+					var r krbmsg.KDCRep
+					if r, err = krbmsg.DecodeKDCRep(b2); err == nil {
+						got = r.Ticket
+					}
+				}
+			}
+			switch {
+			case err != nil:
+				c.Violate("changed", "changed-after-decode:"+msg+":error", map[string]interface{}{"err": err.Error()}, rec)
+			case !bytes.Equal(got, cs.want()):
+				c.Violate("changed", "changed-after-decode:"+msg+":encoding-carries-other-ticket", map[string]interface{}{"first_difference_at": firstDiff(got, cs.want())}, rec)
+			default:
+				c.Distinct("changed/" + msg + "/" + cs.name)
+			}
+		}
+	}
+}
+
+// shortKDCOptions sets kdc_default_options as a krb5.conf with the given (short) value yields it.
+func shortKDCOptions(cf *config.Config, v string) {
+	x, err := config.NewFromString("[libdefaults]\n default_realm = R.COM\n kdc_default_options = " + v + "\n")
+	if err != nil {
+		engine.FailValid("krb5.conf with kdc_default_options = "+v, err)
+	}
+	cf.LibDefaults.KDCDefaultOptions = x.LibDefaults.KDCDefaultOptions
+}
+
 // constructorsInLocalZone: the messages gokrb5 builds itself (request constructors, authenticator, pre-authentication
 // timestamp, KRB-ERROR), built while the machine's local zone is not UTC, must decode with the strict reference
 // decoder: every KerberosTime in the 15-character UTC form, flags of 32 bits, right tags.
@@ -1083,6 +1187,11 @@ func constructorsInLocalZone(c *engine.Ctx) {
 			cf.LibDefaults.Proxiable = true
 			cf.LibDefaults.Canonicalize = true
 		},
+		// kdc_default_options written with fewer than four octets, and no option that sets a flag afterwards: the
+		// request still carries KerberosFlags of at least 32 bits
+		func(cf *config.Config) { shortKDCOptions(cf, "0x10") },
+		func(cf *config.Config) { shortKDCOptions(cf, "0x0001") },
+		func(cf *config.Config) { shortKDCOptions(cf, "0x000000"); cf.LibDefaults.RenewLifetime = time.Hour },
 	} {
 		cfg := config.New()
 		cfg.LibDefaults.DefaultRealm = "R.COM"
